@@ -232,3 +232,13 @@ Proof.
   destruct (formatted_shape us Hr H0) as (Hshape & _). cbv zeta in Hshape. rewrite Hshape.
   rewrite !app_length, !pad_length. reflexivity.
 Qed.
+
+(* break-down against the POSIX formula directly *)
+Lemma breaktime_matches_posix t : utc_first <= t < utc_end ->
+  let dt := break_utc t in
+  valid_datetime dt = true /\
+  posix_seconds (year dt) (month dt) (day dt) (hour dt) (minute dt) (second dt) = t.
+Proof.
+  intros Ht. cbv zeta. destruct (utc_roundtrip t Ht) as [Hv Hb]. split; [exact Hv|].
+  rewrite <- (matches_posix _ Hv). exact Hb.
+Qed.
